@@ -1,4 +1,5 @@
 """C17 Span fields become labels with metric > inner span > outer span precedence (reduced scope: the merging kernels)."""
+import re
 import z3
 from common import *
 import _e3
@@ -353,6 +354,89 @@ def span_hooks(e3):
         check.discharge_many(e3.res, specs, 120)
 
 
+def field_values(e3):
+    """`impl Visit for Labels`: what a span field of each value type becomes as a label value (str as is, bool as "true"/"false", i64/u64 as
+    their decimal text, anything else as its Debug text), stored under the field's name, replacing an earlier value of that name"""
+    P = _e3.program(["metrics-tracing-context"])
+    include = z3.Function("filter_admits", z3.IntSort(), z3.BoolSort())
+    for ty in ("str", "bool", "i64", "u64", "debug"):
+        for existing in (False, True):
+            b = [x for x in P.by_last[f"record_{ty}"] if x.impl and x.impl[1] == "Labels"][0]
+            fk, ek, ev = z3.Int("field_name"), z3.Int("existing_name"), z3.Int("existing_val")
+            val = {"str": Native("aval", z3.Int("str_value")), "bool": z3.Bool("bool_value"), "i64": z3.BitVec("i64_value", 64), "u64": z3.BitVec("u64_value", 64), "debug": Native("dynval", 0)}[ty]
+            m = base_models(include)
+            m.update({
+                r"Field::name$": lambda eng, ctx, f, path, args, dty: Native("aname", fk),
+                r" as Into(<.*>)?>::into$|as From(<.*>)?>::from$|as ToOwned>::to_owned$": lambda eng, ctx, f, path, args, dty: args[0],
+                r"^(itoa::)?Buffer::new$": lambda *a: Opaque("itoa buffer"),
+                r"^(itoa::)?Buffer::format$": lambda eng, ctx, f, path, args, dty: Native("numtext", (re.search(r"format::<(\w+)>", path).group(1) if re.search(r"format::<(\w+)>", path) else "?", args[1])),
+                r"Argument::new_debug$": lambda eng, ctx, f, path, args, dty: Native("dbgarg", MC.load(eng, ctx, args[0])),
+                r"Argument::new_display$": lambda eng, ctx, f, path, args, dty: Native("dsparg", MC.load(eng, ctx, args[0])),
+                r"^Arguments::new$": lambda eng, ctx, f, path, args, dty: Native("fmtargs2", (args[0], tuple((lambda a: [a.f[i] for i in sorted(a.f)] if isinstance(a, Agg) else [a])(MC.load(eng, ctx, args[1]))))),
+                r"^format$|fmt::format$": lambda eng, ctx, f, path, args, dty: Native("formatted", args[0]),
+                r"LinearOwnedReusable as Deref(Mut)?>::deref(_mut)?$": lambda eng, ctx, f, path, args, dty: args[0],
+            })
+            m2 = dict(models.BASE)
+            m2.update(m)
+            eng = sym.Engine(P, models=m2, loop_bound=4, max_paths=2000)
+            eng.merging = False
+            ctx0 = sym.Ctx(eng, 1)
+            ctx0.statics = {"field": Native("field", fk)}
+            ctx0.statics["labels"] = Agg({0: cellmap(ctx0, [(Native("aname", ek), Native("aval", ev))] if existing else [])})
+            if ty == "debug":
+                ctx0.statics["dyn"] = val
+
+            def script():
+                yield ("call", b, [Ptr(("static", "labels")), Ptr(("static", "field")), (Ptr(("static", "dyn")) if ty == "debug" else val)])
+                s_ = yield ("getstatic", "labels")
+                rows = []
+                for k, cell in s_.f[0].data:
+                    v = yield ("getstatic", cell)
+                    rows.append((k, v))
+                return Native("rows", tuple(rows))
+            leaves = eng.run_script(1, f"record_{ty}", script, ctx0=ctx0)
+            e3.absorb(eng)
+            done = [l for l in leaves if l.status == "done"]
+            other = z3.Or(*[l.taken() for l in leaves if l.status != "done"] or [z3.BoolVal(False)])
+
+            def text_ok(v, l):
+                """condition under which the stored value `v` is the text the property prescribes for this field value"""
+                if ty == "str":
+                    return z3.BoolVal(isinstance(v, Native) and v.kind == "aval" and v.data is val.data)
+                if ty == "bool":
+                    if not (isinstance(v, Native) and v.kind in ("str", "sstr")):
+                        return z3.BoolVal(False)
+                    txt = v.data[0] if v.kind == "str" else "".join(chr(x.as_long()) for x in v.data if z3.is_bv_value(x))
+                    return z3.If(val, z3.BoolVal(txt == "true"), z3.BoolVal(txt == "false"))
+                if ty in ("i64", "u64"):
+                    if not (isinstance(v, Native) and v.kind == "numtext" and v.data[0] == ty and z3.is_expr(v.data[1])):
+                        return z3.BoolVal(False)
+                    return v.data[1] == val
+                if not (isinstance(v, Native) and v.kind == "formatted" and isinstance(v.data, Native) and v.data.kind == "fmtargs2"):
+                    return z3.BoolVal(False)
+                tpl, fargs = v.data.data
+                one = isinstance(tpl, Native) and tpl.kind == "str" and MS.unescape_rust(tpl.data[0]) in ("\xc0", "\xc0\x00")
+                return z3.BoolVal(bool(one) and len(fargs) == 1 and isinstance(fargs[0], Native) and fargs[0].kind == "dbgarg" and fargs[0].data is val)
+            bad = []
+            for l in done:
+                rows = l.ret.data
+                names = [k.data for k, v in rows]
+                hit = [z3.And(names[i] == fk, text_ok(rows[i][1], l)) for i in range(len(rows))]
+                once = z3.Sum(*[z3.If(names[i] == fk, 1, 0) for i in range(len(rows))], z3.IntVal(0)) == 1
+                kept = z3.BoolVal(True)
+                if existing:
+                    kept = z3.Implies(ek != fk, z3.Or(*[z3.And(names[i] == ek, z3.BoolVal(isinstance(rows[i][1], Native) and rows[i][1].kind == "aval" and rows[i][1].data is ev)) for i in range(len(rows))] or [z3.BoolVal(False)]))
+                size = z3.BoolVal(len(rows) == (2 if existing else 1)) if not existing else z3.If(ek == fk, z3.BoolVal(len(rows) == 1), z3.BoolVal(len(rows) == 2))
+                bad.append(z3.And(l.taken(), z3.Not(z3.And(z3.Or(*hit or [z3.BoolVal(False)]), once, kept, size))))
+            cname = f"c17_field_{ty}_{'over_existing' if existing else 'fresh'}"
+            bounds = f"<Labels as Visit>::record_{ty}(field, value) on a map with {'one earlier entry (name possibly the same)' if existing else 'no entries'}; field name and value symbolic; {len(done)} paths"
+            specs = [dict(name=f"{cname}:witness", desc="returns", bounds=bounds, cons=[z3.Or(*[l.taken() for l in done] or [z3.BoolVal(False)])], expect_unsat=False),
+                     dict(name=f"{cname}:returns", desc="panics or exceeds a loop bound", bounds=bounds, cons=[other], expect_unsat=True),
+                     dict(name=f"{cname}:field_value_text", desc="the label stored for the field is not, under the field's name and exactly once, the text the value type prescribes "
+                          "(str as is, bool as true/false, integers in decimal, anything else by Debug), or an earlier label of another name is lost", bounds=bounds, cons=[z3.Or(*bad or [z3.BoolVal(False)])], expect_unsat=True)]
+            check.discharge_many(e3.res, specs, 60)
+
+
 def tree_confirm(tname, ops, kind, fld, mk, mv, include):
     """replay of a solver model of a span tree: the same tree, names, values and filter verdicts through the public API"""
     def h(ob, model):
@@ -430,7 +514,7 @@ def _discharge_with_replay(res, specs, timeout=120):
 def run(tier, seed, t0):
     check.discharge_many = _discharge_with_replay
     e3 = _e3.E3("C17")
-    for nm_, fn in (("c17_merge", merge_kernels), ("c17_enhance_key", enhance), ("c17_span_hooks", span_hooks), ("c17_span_tree", lambda e: span_tree(e, tier == "thorough"))):
+    for nm_, fn in (("c17_merge", merge_kernels), ("c17_enhance_key", enhance), ("c17_span_hooks", span_hooks), ("c17_field_values", field_values), ("c17_span_tree", lambda e: span_tree(e, tier == "thorough"))):
         if os.environ.get("VERIF_C17_ONLY") and os.environ["VERIF_C17_ONLY"] != nm_:
             continue
         try:
